@@ -858,8 +858,8 @@ def run_exhaust(ctx: Ctx, comp: Exhaust) -> None:
         rows.append({"n": len(c["ids"]), "m": c["mct"], "fq": c["fq"], "aging": c["aging"], "rot": c["rot"],
                      "alpha": c["alpha"], "depth": c["depth"], "leaves": io["count"], "maxgap": io["maxgap"],
                      "bound": io["bound"]})
-    ctx.extra.setdefault("exhaustive", []).extend(rows)
-    ctx.extra["exhaustive_leaves_total"] = sum(r["leaves"] for r in ctx.extra["exhaustive"])
+    ctx.extra.setdefault("exhaustive_scopes", []).extend(rows)
+    ctx.extra["exhaustive_leaves_total"] = sum(r["leaves"] for r in ctx.extra["exhaustive_scopes"])
 
 
 HIST = SchedHist()
